@@ -19,7 +19,8 @@ Cnt0 == [steps |-> 0, execs |-> 0, noteon |-> 0, c05on |-> 0, c05nonempty |-> 0,
 
 Init == l = 1 /\ h = [none |-> TRUE] /\ pre = [none |-> TRUE] /\ fails = <<>> /\ cnt = Cnt0 /\ exec = 0
 
-Tag(p, S, ev) == { [p |-> p, w |-> x, l |-> l, x |-> exec, e |-> ev.e] : x \in S }
+Tag(p, S, ev) == { [p |-> p, w |-> x, l |-> l, x |-> exec, e |-> ev.e, d |-> ""] : x \in S }
+TagD(p, S, ev, d) == { [p |-> p, w |-> x, l |-> l, x |-> exec, e |-> ev.e, d |-> d] : x \in S }
 SetToSeq(S) == CHOOSE f \in [1..Cardinality(S) -> S] : \A i, j \in 1..Cardinality(S) : i # j => f[i] # f[j]
 AddFails(S) == IF Len(fails) >= MaxFails \/ S = {} THEN fails ELSE fails \o SetToSeq(S)
 
@@ -38,7 +39,7 @@ StepCall(ev) ==
       known == ev.e = "NoteOn" /\ Known(h, ev.ch)
       ins == IF IsNoteOn(ev) /\ known THEN Doc(h.bl, h.mode, RefView(h, ev.ch), p[2]) ELSE BlankIns
       f04 == Tag("C04", C04Fails(s), ev)
-      f05 == Tag("C05", C05Fails(h1, s), ev)
+      f05 == TagD("C05", C05Fails(h1, s), ev, ToString(<<"held", Held(h1), "sounding", Sounding(s)>>))
       f06 == IF IsNoteOn(ev) /\ known THEN Tag("C06", C06Fails(pre, s, p, ev.r, ins.blank), ev) ELSE {}
       f12 == IF IsNoteOn(ev) /\ known THEN Tag("C12", C12Fails(h, ev, s), ev) ELSE {}
       f19 == IF ev.e = "SysEx" THEN Tag("C19", C19Fails(h, ev, pre, s), ev) ELSE {}
@@ -55,7 +56,7 @@ StepCall(ev) ==
           !.c06idle = @ + (IF IsNoteOn(ev) /\ ~ins.blank /\ IdleChans(pre) # {} THEN 1 ELSE 0),
           !.c06full = @ + (IF IsNoteOn(ev) /\ ~ins.blank /\ IdleChans(pre) = {} THEN 1 ELSE 0),
           !.c06steal = @ + (IF IsNoteOn(ev) /\ ~ins.blank /\ IdleChans(pre) = {} /\
-                               (\E ci \in DOMAIN pre.ch : Len(pre.ch[ci].u) = 1 /\ pre.ch[ci].u[1].s # 0) THEN 1 ELSE 0),
+                               (\E ci \in DOMAIN pre.ch : Len(pre.ch[ci].u) = 1 /\ KeyDownLocs(pre, ci) = {}) THEN 1 ELSE 0),
           !.c12blank = @ + (IF IsNoteOn(ev) /\ known /\ ins.blank THEN 1 ELSE 0),
           !.c12sound = @ + (IF IsNoteOn(ev) /\ known /\ ~ins.blank THEN 1 ELSE 0),
           !.c12fallback = @ + (IF IsNoteOn(ev) /\ known /\ ~ins.blank /\
@@ -68,7 +69,7 @@ StepCall(ev) ==
           !.drumlife = @ + (IF h1.life # <<>> THEN 1 ELSE 0)]
 
 StepCrash(ev) ==
-  /\ fails' = AddFails({[p |-> "CRASH", w |-> ev.stage, l |-> l, x |-> exec, e |-> "Crash"]})
+  /\ fails' = AddFails({[p |-> "CRASH", w |-> ev.stage, l |-> l, x |-> exec, e |-> "Crash", d |-> ""]})
   /\ UNCHANGED <<h, pre, cnt, exec>>
 
 Next ==
